@@ -489,7 +489,8 @@ func sleepFunc(c ugo.Call) (ugo.Object, error) {
 		}
 		dur -= 10 * time.Millisecond
 		time.Sleep(10 * time.Millisecond)
-		if c.VM().Aborted() {
+		// there is no VM when the function is called from Go directly
+		if vm := c.VM(); vm != nil && vm.Aborted() {
 			return ugo.Undefined, ugo.ErrVMAborted
 		}
 	}
